@@ -1,8 +1,9 @@
 CONFIG = {
     "id": "C10",
-    "coq_targets": ["Props/C10.v", "Model/QueueCheck.v", "Model/DrainCheck.v"],
+    "coq_targets": ["Gen/FormulasQueue.v", "Proofs/FormulasQueueProofs.v",
+                    "Props/C10.v", "Model/QueueCheck.v", "Model/DrainCheck.v"],
     "prop_files": ["Props/C10.v"],
-    "gen": [],
+    "gen": ["FormulasQueue"],
     "components": [
         # the real queue.Handler through New/Insert/Pop/IsEmpty
         {"name": "queue", "modules": ["Model.Queue", "Model.QueueCheck"],
@@ -28,7 +29,20 @@ CONFIG = {
             "scripts of executing inserts and action callbacks issue the same effects; compared: InsertStart/InsertEnd/"
             "ActionStart/ActionEnd/TargetDeath/Termination events, the Execute and action callbacks, executeQueue's "
             "result and IsEmpty; a case is non-trivial when distinct as an input term",
-    "trusted": ["container/heap: the theorems are stated over the abstract pop-min (Model/Queue.v); the array heap with "
+    "trusted": [
+        "TRANSLATED from the Go source on every run and proved equal to the model (Gen/FormulasQueue.v; "
+        "Proofs/FormulasQueueProofs.v; theorem C10_model_formulas_are_the_source): queue.minHeap.Less (priority, "
+        "then insertion id), every info.InsertPriority value (the model uses CharInsertAction and "
+        "EnemyInsertAction), BehaviorFlag_STAT_CTRL and BehaviorFlag_DISABLE_ACTION (the abort flags of an "
+        "inserted action)",
+        "still HAND-WRITTEN (correspondence only): Insert / Pop through container/heap, the drain loop, the drop "
+        "rules",
+        "translator (harness/cmd/go2coq formulas.go, formulas_specs.go): trusted are the Go front end "
+        "(go/packages, go/types, go/constant), the fixed whitelist and accessor tables (which Go field / method is "
+        "which model accessor), the statement translation listed at the top of formulas.go, and that lit N n d "
+        "(the correctly rounded quotient of two integers below 2^53) is the binary64 the Go compiler stores for "
+        "the literal n/d; the translator fails closed (unknown construct, added or missing assignment, changed "
+        "signature: go2coq exits 1 and the check reports a broken translator obligation)","container/heap: the theorems are stated over the abstract pop-min (Model/Queue.v); the array heap with "
                 "container/heap's up/down loops (transcribed from the Go 1.23 source into Model/QueueHeap.v) is proved to "
                 "refine it for every interleaving (Proofs/QueueHeapProofs.v) and is also run against the real "
                 "queue.Handler by the correspondence check; what stays trusted is that transcription",
@@ -40,13 +54,16 @@ CONFIG = {
     "assumptions": ["drain theorems are stated for runs on which the model's fuel does not run out; fuel mu(s)+1 is proved "
                     "to suffice (C10_drain_never_runs_out_of_fuel); the case checker uses fuel 2000 for at most ~60 tasks"],
     "manifest": {
-        "level_text": "Kernel-checked theorems over an executable Gallina model of the insert queue and of the "
+        "level_text": "Translator tie (way 1): the queue order and the insert priorities / abort flags are regenerated from queue/queue.go, info/queue.go and pkg/model on every run (go2coq FormulasQueue) and proved EQUAL to the model's definitions; "
+                      "Kernel-checked theorems over an executable Gallina model of the insert queue and of the "
                       "executeQueue drain (all interleavings of inserts and pops, inserts issued by executing inserts, "
                       "all life states and flags), tied to the Go code by exact correspondence on the real "
                       "queue.Handler and on the real executeQueue, plus trace monitors on the implementation.",
-        "level_note": "Coq kernel; hand-written models Model/Queue.v and Model/QueueHeap.v (array heap proved to refine "
+        "level_note": "go2coq FormulasQueue translator + kernel-checked equalities generated = model; "
+                      "Coq kernel; hand-written models Model/Queue.v and Model/QueueHeap.v (array heap proved to refine "
                       "pop-min); correspondence harness; add-only verif hook pkg/simulation/export_verif.go.",
-        "technique": "Coq proof (strict total order, minimum by invariant, invariants over op lists and drain "
+        "technique": "source-to-Coq translation of the order and constants with equality proofs + "
+                     "Coq proof (strict total order, minimum by invariant, invariants over op lists and drain "
                      "iterations) + model/implementation correspondence + monitors",
         "design_ref": "DESIGN.md section 7, C10",
     },
